@@ -382,9 +382,9 @@ _JOB = {}
 
 
 def _replay_chunk(idxs):
-    prop, traces, mk = _JOB["prop"], _JOB["traces"], _JOB["mk"]
+    prop, traces, mk, post = _JOB["prop"], _JOB["traces"], _JOB["mk"], _JOB["post"]
     n, divs = replay.replay(prop, [traces[i] for i in idxs], mk, stop_after=10 ** 9)
-    return n, [plain(reclassify(d)) for d in divs]
+    return n, [plain(post(d)) for d in divs]
 
 
 def plain(d):
@@ -398,13 +398,14 @@ def unplain(p):
                       expected=p["expected"], actual=p["actual"], extra=p["extra"])
 
 
-def preplay(prop, traces, mk, procs=None):
-    """replay.replay over forked worker processes (the traces and the adapter factory are inherited, not pickled)"""
+def preplay(prop, traces, mk, procs=None, post=None):
+    """replay.replay over forked worker processes (the traces and the adapter factory are inherited, not pickled);
+    post(divergence) may rewrite the signature of a divergence (classification of the recorded deviation)"""
     import multiprocessing as mp
     if not traces:
         return 0, []
     procs = min(procs or env.NCPU, max(1, len(traces) // 8))
-    _JOB.update(prop=prop, traces=traces, mk=mk)
+    _JOB.update(prop=prop, traces=traces, mk=mk, post=post or reclassify)
     try:
         if procs <= 1:
             res = [_replay_chunk(list(range(len(traces))))]
@@ -616,17 +617,18 @@ def run_c22(ctx):
     singles = [{r} for r in RULE_ORDER]
     allrules = [set(RULE_ORDER)]
     ncpu = env.NCPU
-    periods = ctx.pick([0, 2], [0, 1, 2])
-    gtime, genv = ctx.pick(2, 4), ctx.pick(1, 2)
+    periods = [0, 2]
+    gtime, genv = ctx.pick(2, 3), ctx.pick(1, 2)
     mtime = ctx.pick(2, 3)
-    mc = cfg_text([set(VALUE_RULES), {"streak", "deck"}] + ([] if ctx.quick else singles), ["all", "one"], periods,
-                  mtime, 1, history=True, props=PROPS)
+    # (periods 0 and 1 tick give the same behaviours in the model; the real logger gets period 0.0 resp. 0.5 s in the replays)
+    mc = cfg_text([set(VALUE_RULES), {"streak", "deck"}], ["all", "one"], [0, 2], mtime, 1, restart=not ctx.quick, history=True,
+                  props=PROPS)
     gcfg = cfg_text(singles, ["all", "one"], periods, gtime, genv)
     dot = env.subdir("c22") + "/rules.dot"
-    nsim = ctx.pick(150, 3000)
+    nsim = ctx.pick(150, 2000)
     pref = env.subdir("c22sim") + "/sim"
     scfg = cfg_text(allrules, ["all", "one"], [0, 1, 2], ctx.pick(5, 8), 2)
-    ntr = ctx.pick(600, 8000)
+    ntr = ctx.pick(600, 6000)
     # the TLC runs do not depend on each other: they run side by side while the real logger records its random histories
     with ThreadPoolExecutor(max_workers=4) as tp:
         f_mc = tp.submit(tlc.run, "LogRules", mc, spec_dir=SPEC_DIR, deadlock=False, tag="c22mc", workers=max(1, ncpu // 2))
